@@ -107,6 +107,10 @@ PAIRS = {
     "class_vs_class": ("m: int, n: int, r: bool", [], 'Object.inline("M", properties={"a": Property(Integer(minimum=m), required=r)})', 'Object.inline("M", properties={"a": Property(Integer(minimum=n), required=True)})', DV, DPRE, "quick"),
     "class_names": ("m: int, n: int", [], 'Object.inline("M", properties={"a": Property(Integer(minimum=m))})', 'Object.inline("N", properties={"a": Property(Integer(minimum=n))})', DV, DPRE, "thorough"),
     "class_vs_subclass": ("m: int", [], '_P(m)', '_Sub(m)', DV, DPRE, "quick"),
+    "none_vs_absent_const": ("f1: bool, f2: bool", [], 'Element(**({"const": None} if f1 else {}))', 'Element(**({"const": None} if f2 else {}))', SV, SVPRE, "quick"),
+    "none_vs_absent_default": ("f1: bool, f2: bool", [], 'AnyOf(String(), Null(), **({"default": None} if f1 else {}))', 'AnyOf(String(), Null(), **({"default": None} if f2 else {}))', SV, SVPRE, "quick"),
+    "none_vs_absent_nested": ("f1: bool, f2: bool", [], 'Element(items=Element(**({"const": None} if f1 else {})), properties={"a": Property(Null(**({"default": None} if f1 else {})))})', 'Element(items=Element(**({"const": None} if f2 else {})), properties={"a": Property(Null(**({"default": None} if f2 else {})))})', "Union[List[Union[int, None]], Dict[str, int]]", ["not isinstance(v, list) or len(v) <= 2", "not isinstance(v, dict) or (len(v) <= 1 and all(k in ('a', 'b') for k in v))"], "quick"),
+    "falsy_vs_absent": ("f1: int, f2: int", ["0 <= f1 < 6", "0 <= f2 < 6"], 'Element(**(({}, {"const": 0}, {"const": False}, {"const": ""}, {"const": []}, {"enum": [None]})[f1]))', 'Element(**(({}, {"const": 0}, {"const": False}, {"const": ""}, {"const": []}, {"enum": [None]})[f2]))', SV, SVPRE, "quick"),
     "class_description": ("d1: bool, d2: bool, m: int", [], 'Object.inline("M", properties={"a": Property(Integer(minimum=m))}, description=("x" if d1 else "y"))', 'Object.inline("M", properties={"a": Property(Integer(minimum=m))}, description=("x" if d2 else "y"))', DV, DPRE, "quick"),
     "element_description": ("d1: bool, d2: bool, m: int", [], 'Integer(minimum=m, description=("x" if d1 else "y"))', 'Integer(minimum=m, description=("x" if d2 else NotPassed()))', SV, SVPRE, "quick"),
     "inherited_kw_vs_flat_without": ("m: int", [], '_inheriting(m)', 'Object.inline("K", properties={"a": Property(Integer(minimum=m))})', DV, DPRE, "quick"),
@@ -150,6 +154,8 @@ def harnesses(ctx) -> List[H]:
     hs: List[H] = []
     for name, (hargs, pre, e1, e2, vt, vpre, tier) in PAIRS.items():
         excl = []
+        if name == "falsy_vs_absent":
+            excl = ctx.excl("C17-bool-number-equal", "{f1, f2} != {1, 2}")
         if "c1" in hargs and "c2" in hargs and LIT in hargs:
             excl = ctx.excl("C17-bool-number-equal", "(c1 != c2) or (isinstance(c1, bool) == isinstance(c2, bool))")
         body = f"""
